@@ -230,6 +230,18 @@ func (s *storage) SetRaw(ctx context.Context, keyValue ...*spacesyncproto.StoreK
 			keyValues[i].KeyPeerId = ""
 			continue
 		}
+		// the signing account must have been allowed to write at the ACL record the value cites,
+		// the same rule the local write path (Set) applies
+		identity, err := crypto.DecodeAccountAddress(keyValues[i].Identity)
+		if err != nil {
+			keyValues[i].KeyPeerId = ""
+			continue
+		}
+		perms, err := state.PermissionsAtRecord(keyValues[i].AclId, identity)
+		if err != nil || !perms.CanWrite() {
+			keyValues[i].KeyPeerId = ""
+			continue
+		}
 	}
 	s.aclList.RUnlock()
 	keyValues = slice.DiscardFromSlice(keyValues, func(value innerstorage.KeyValue) bool {
